@@ -114,8 +114,11 @@ func constBytesContent(val ssa.Value, strict bool) (string, bool) {
 
 // keyShape follows append chains, parameters and small key-building helpers.
 func keyShape(e *Env, v ssa.Value, depth int) *KeyShape {
-	if depth > 6 {
+	if depth > 14 {
 		return nil
+	}
+	if s, ok := e.P.constPrefixContent(v); ok {
+		return &KeyShape{Prefix: s} // the bare prefix, e.g. handed to a helper that appends to it
 	}
 	switch x := v.(type) {
 	case *ssa.Parameter:
@@ -138,11 +141,10 @@ func keyShape(e *Env, v ssa.Value, depth int) *KeyShape {
 			out := &KeyShape{Prefix: ks.Prefix, Parts: append(append([]string{}, ks.Parts...), e.Term(x.Call.Args[1]))}
 			return out
 		}
-		if sc := x.Call.StaticCallee(); sc != nil && len(sc.Blocks) > 0 && strings.HasPrefix(sc.Pkg.Pkg.Path(), modPath) {
-			rets := returnsOf(sc)
-			if len(rets) == 1 && len(rets[0].Results) == 1 {
-				return keyShape(e.Sub(x, sc), rets[0].Results[0], depth+1)
-			}
+		return keyShapeCall(e, x, 0, depth)
+	case *ssa.Extract:
+		if call, ok := x.Tuple.(*ssa.Call); ok {
+			return keyShapeCall(e, call, x.Index, depth)
 		}
 	case *ssa.UnOp:
 		if w, we := e.ctorField(x); w != nil {
@@ -167,6 +169,34 @@ func keyShape(e *Env, v ssa.Value, depth int) *KeyShape {
 		return first
 	}
 	return nil
+}
+
+// keyShapeCall: the key is result idx of a module helper: every (successful) return yields the same shape.
+func keyShapeCall(e *Env, call *ssa.Call, idx int, depth int) *KeyShape {
+	sc := call.Call.StaticCallee()
+	if sc == nil || len(sc.Blocks) == 0 || sc.Pkg == nil || !strings.HasPrefix(sc.Pkg.Pkg.Path(), modPath) || e.depth >= maxDepth {
+		return nil
+	}
+	sub := e.Sub(call, sc)
+	var first *KeyShape
+	for _, r := range returnsOf(sc) {
+		if idx >= len(r.Results) {
+			return nil
+		}
+		if lastIsError(sc) && !isSuccessReturn(r) {
+			continue
+		}
+		ks := keyShape(sub, liveRetval(r, idx), depth+1)
+		if ks == nil {
+			return nil
+		}
+		if first == nil {
+			first = ks
+		} else if first.String() != ks.String() {
+			return nil
+		}
+	}
+	return first
 }
 
 // accountOrigin classifies where an account value comes from: "param:<term>" for an account handed in by the caller of
@@ -272,7 +302,7 @@ func entryOrigin(e *Env, v ssa.Value, depth int) string {
 		}
 		return "literal"
 	case *ssa.Extract:
-		if call, ok := x.Tuple.(*ssa.Call); ok && x.Index == 0 {
+		if call, ok := x.Tuple.(*ssa.Call); ok && strings.HasSuffix(x.Type().String(), "esdt.ESDigitalToken") {
 			return entryOriginCall(e, call)
 		}
 	case *ssa.Call:
